@@ -30,6 +30,12 @@ ClauseOf(t) == { <<"select", <<From, [m |-> "select", terms |-> <<Fld("T1", "a")
 Nested == { <<"nested-from", <<[m |-> "from_", src |-> "Q6"], [m |-> "select", terms |-> <<Fld("Q6", "a")>>], [m |-> "where", crit |-> Cmp(Fld("Q6", "b"), Num("1"))]>> >>,
             <<"nested-join", <<From, [m |-> "join", item |-> "Q6", how |-> "", kind |-> "on", crit |-> Cmp(Fld("T1", "a"), Fld("Q6", "a")), cols |-> <<>>], Sel>> >>,
             <<"plain", <<From, Sel>> >>,
+            <<"with-cte", <<[m |-> "with_", name |-> "c7"], [m |-> "from_", src |-> "C7"], [m |-> "select", terms |-> <<Fld("C7", "a")>>]>> >>,
+            <<"where-or", <<From, Sel, [m |-> "where", crit |-> [k |-> "bin", op |-> "OR", l |-> Cmp(Fld("T1", "b"), Num("1")), r |-> Cmp(Fld("T1", "c"), Num("2"))]]>> >>,
+            <<"where-and-or", <<From, Sel, [m |-> "where", crit |-> [k |-> "bin", op |-> "OR", l |-> Cmp(Fld("T1", "b"), Num("1")), r |-> Cmp(Fld("T1", "c"), Num("2"))]],
+                                [m |-> "where", crit |-> Cmp(Fld("T1", "a"), Num("3"))]>> >>,
+            <<"having-or", <<From, Sel, [m |-> "groupby", terms |-> <<Fld("T1", "a")>>],
+                             [m |-> "having", crit |-> [k |-> "bin", op |-> "OR", l |-> Gt([k |-> "call", f |-> "SUM", args |-> <<Fld("T1", "b")>>], Num("1")), r |-> Cmp(Fld("T1", "a"), Num("2"))]]>> >>,
             <<"distinct", <<From, Sel, [m |-> "distinct"]>> >>,
             <<"param-values", <<From, Sel, [m |-> "where", crit |-> Cmp(Fld("T1", "b"), Num("5"))], [m |-> "where", crit |-> Cmp(Fld("T1", "c"), [k |-> "str", n |-> "x"])]>> >> }
 VARIABLES inner, pos
